@@ -1,5 +1,136 @@
-(* Proofs/SideC09.v — side conditions over the values regenerated from /repo (Gen/C09.v) *)
-From TX Require Import Base.Val Model.Routing Gen.C09.
+(* Proofs/SideC09.v — side conditions tying Model/Routing.v to the values regenerated from /repo (Gen/C09.v):
+   key layout of routing.go, TTLs, the prefix tables of hybrid.DefaultConfig(), the value shapes the real backends
+   hand back for a waiting key, the polling constants of cross_node_session.go.  Re-proved on every run.
+   Also: the concrete deployment configurations the correspondence run replays (cfg_direct / cfg_hybrid) and the
+   concrete codec instance used for extraction and for the non-vacuity statement. *)
+From Coq Require Import List NArith ZArith Bool Lia ZifyN ZifyNat ZifyBool.
+Import ListNotations.
+From TX Require Import Base.Val Model.Routing Proofs.Routing Gen.C09.
 Open Scope N_scope.
+
+(* ---- deployments *)
+(* every RoutingTable on one store (memory.Storage / redis.Storage / one hybrid.Storage) *)
+Definition cfg_direct (ttl : N) (ident : bool) : cfg :=
+  mkCfg (new_table_ttl DefaultTTLns ttl) NodeAddressTTLns WaitPrefix NodePrefix NodeSuffix (fun _ => true) ident.
+(* one hybrid.Storage per node with hybrid.DefaultConfig(), with / without a shared cache *)
+Definition cfg_hybrid (has_shared_cache : bool) (ttl : N) : cfg :=
+  mkCfg (new_table_ttl DefaultTTLns ttl) NodeAddressTTLns WaitPrefix NodePrefix NodeSuffix
+        (hybrid_route has_shared_cache HybridSharedPersistent HybridShared) ShapeIdentHybridShared.
+
+(* 1 *)
 Lemma default_ttl_positive : 0 < DefaultTTLns.
 Proof. reflexivity. Qed.
+
+Lemma table_ttl_nonzero : forall ttl, new_table_ttl DefaultTTLns ttl <> 0.
+Proof.
+  intro ttl. unfold new_table_ttl. destruct (N.eqb ttl 0) eqn:E.
+  - pose proof default_ttl_positive. lia.
+  - apply N.eqb_neq in E. exact E.
+Qed.
+
+(* 2 *)
+Lemma node_address_ttl : NodeAddressTTLns = NodeAddressTTLconst /\ 0 < NodeAddressTTLns.
+Proof. split; reflexivity. Qed.
+
+(* 3: "tunnox:tunnel_waiting:"+id and "tunnox:node:"+id+":addr" never coincide *)
+Lemma key_families_diverge : diverge WaitPrefix NodePrefix = true.
+Proof. vm_compute. reflexivity. Qed.
+
+(* 4, 5: under hybrid.DefaultConfig() both key families are pure shared data for EVERY id: they go to the shared
+   cache when there is one (and to nothing else), to the node-local cache otherwise *)
+Lemma waiting_family_shared : family_pure_shared HybridSharedPersistent HybridShared WaitPrefix = true.
+Proof. vm_compute. reflexivity. Qed.
+
+Lemma node_family_shared : family_pure_shared HybridSharedPersistent HybridShared NodePrefix = true.
+Proof. vm_compute. reflexivity. Qed.
+
+(* 6: the value shapes the real backends return for a waiting key are the ones the model's configurations use *)
+Lemma backend_shapes :
+  ShapeIdentMemory = true /\ ShapeIdentRedis = false /\ ShapeIdentHybridShared = false /\ ShapeIdentHybridLocal = true.
+Proof. repeat split; reflexivity. Qed.
+
+(* 7: the polling lookup of the target node retries well inside the waiting period *)
+Lemma poll_inside_waiting_period :
+  0 < PollInitialNs /\ PollInitialNs <= PollMaxNs /\ 2 <= PollFactor /\ 10 * PollMaxNs <= DefaultTTLns.
+Proof. vm_compute. repeat split; intro K; discriminate. Qed.
+
+(* ---- the deployments meet the hypotheses of the theorems *)
+Lemma direct_meets : forall ttl ident,
+  keys_disjoint (cfg_direct ttl ident) /\ (forall k, c_route (cfg_direct ttl ident) k = true)
+  /\ c_ttl (cfg_direct ttl ident) <> 0.
+Proof.
+  intros ttl ident. split; [|split].
+  - apply keys_disjoint_of_diverge. exact key_families_diverge.
+  - reflexivity.
+  - apply table_ttl_nonzero.
+Qed.
+
+Lemma hybrid_meets : forall hs ttl,
+  keys_disjoint (cfg_hybrid hs ttl)
+  /\ (forall t, c_route (cfg_hybrid hs ttl) (wait_key (cfg_hybrid hs ttl) t) = hs)
+  /\ (forall id, c_route (cfg_hybrid hs ttl) (addr_key (cfg_hybrid hs ttl) id) = hs)
+  /\ (forall t, hybrid_pure_shared HybridSharedPersistent HybridShared (wait_key (cfg_hybrid hs ttl) t) = true)
+  /\ c_ttl (cfg_hybrid hs ttl) <> 0.
+Proof.
+  intros hs ttl. split; [|split; [|split; [|split]]].
+  - apply keys_disjoint_of_diverge. exact key_families_diverge.
+  - intro t. cbn [c_route cfg_hybrid wait_key c_wpre].
+    destruct (family_pure_shared_sound _ _ _ waiting_family_shared t) as [_ [A B]]. destruct hs; assumption.
+  - intro id. cbn [c_route cfg_hybrid addr_key c_npre c_nsuf].
+    destruct (family_pure_shared_sound _ _ _ node_family_shared (id ++ NodeSuffix)) as [_ [A B]]. destruct hs; assumption.
+  - intro t. cbn [cfg_hybrid wait_key c_wpre].
+    destruct (family_pure_shared_sound _ _ _ waiting_family_shared t) as [A _]. exact A.
+  - apply table_ttl_nonzero.
+Qed.
+
+(* ---- a concrete codec: a Go string is either the JSON text of a record or a plain address.  It satisfies the
+   codec hypothesis of every theorem, is the instance the extracted model runs with, and is used for non-vacuity *)
+Definition ex_gstr := (waiting + str)%type.
+Definition ex_enc (r : waiting) : ex_gstr := inl r.
+Definition ex_dec (g : ex_gstr) : option waiting := match g with inl r => Some r | inr _ => None end.
+Definition ex_of_addr (a : str) : ex_gstr := inr a.
+Definition ex_to_addr (g : ex_gstr) : str := match g with inr a => a | inl _ => [123] end.
+Definition ex_keep (_ : cell) (_ : N) : bool := false.
+
+Lemma ex_codec : forall r, ex_dec (ex_enc r) = Some r.
+Proof. reflexivity. Qed.
+
+Definition ex_step := step ex_gstr ex_enc ex_dec ex_dec ex_of_addr ex_to_addr ex_keep.
+Definition ex_final := final ex_gstr ex_enc ex_dec ex_dec ex_of_addr ex_to_addr ex_keep.
+Definition ex_lookup := lookup ex_gstr ex_enc ex_dec ex_dec ex_of_addr ex_to_addr ex_keep.
+
+Definition ex_rec : waiting :=
+  mkW [116;49] [109;228;184;173] [] [110;111;100;101;45;48] 9007199254740993%Z (-9223372036854775808)%Z [104] 65535%Z 7 7.
+Definition ex_other : waiting := mkW [116;50] [] [] [110;49] 1%Z 2%Z [] 0%Z 0 0.
+Definition ex_history : list op :=
+  [ORegAddr 0 [110;111;100;101;45;48] [49;48;46;48;46;48;46;49]; OTick 1000 900; ORegister 1 ex_other;
+   OLookup 2 [116;49]; ORemove 1 [116;50]; OLookup 0 [116;50]; OTick 29999998000 29999998000; OGetAddr 1 [110;111;100;101;45;48]].
+
+(* a concrete non-trivial run of the clustered deployment: registered on node 0, resolved from node 1 with all ten
+   fields one nanosecond before the waiting period lapses, gone one nanosecond after it and after a removal *)
+Lemma ex_run :
+  let c := cfg_hybrid true 30000000000 in
+  let s1 := fst (ex_step c (init ex_gstr) (ORegister 0 ex_rec)) in
+  let s2 := ex_final c s1 ex_history in
+  Forall (fun o => ~ sets_tunnel (w_tunnel ex_rec) o) ex_history
+  /\ now _ s2 = 29999999000 /\ bnow _ s2 = 29999998900
+  /\ ex_lookup c s2 1 (w_tunnel ex_rec) = ROk (stamp ex_rec 0 30000000000)
+  /\ ex_lookup c (ex_final c s2 [OTick 1000 0]) 1 (w_tunnel ex_rec) = ROk (stamp ex_rec 0 30000000000)
+  /\ ex_lookup c (ex_final c s2 [OTick 1001 0]) 1 (w_tunnel ex_rec) = RExpired
+  /\ ex_lookup c (ex_final c s2 [OTick 0 1101]) 1 (w_tunnel ex_rec) = RNotFound
+  /\ ex_lookup c (ex_final c s2 [ORemove 2 (w_tunnel ex_rec)]) 1 (w_tunnel ex_rec) = RNotFound
+  /\ snd (ex_step c s2 (OGetAddr 1 [110;111;100;101;45;48])) = RAddr [49;48;46;48;46;48;46;49].
+Proof.
+  cbv zeta. split.
+  - unfold ex_history. repeat (apply Forall_cons; [cbn [sets_tunnel w_tunnel ex_rec ex_other]; try tauto; intro K; discriminate|]).
+    apply Forall_nil.
+  - vm_compute. repeat split; reflexivity.
+Qed.
+
+(* without a shared cache nothing is shared: a tunnel registered on node 0 does not resolve on node 1 *)
+Lemma ex_unshared_cross_node :
+  let c := cfg_hybrid false 30000000000 in
+  let s1 := fst (ex_step c (init ex_gstr) (ORegister 0 ex_rec)) in
+  ex_lookup c s1 0 (w_tunnel ex_rec) = ROk (stamp ex_rec 0 30000000000)
+  /\ ex_lookup c s1 1 (w_tunnel ex_rec) = RNotFound.
+Proof. vm_compute. split; reflexivity. Qed.
